@@ -66,6 +66,12 @@ def materialise(b, d, broken=None):
         open(d + "/" + h, "w", newline="").write(render(hu, h, b["eol"], b["final"])[0])
 
 
+def _limits():
+    # runaway compiler/test-program runs are cut by CPU time (independent of machine load), not by wall time
+    import resource
+    resource.setrlimit(resource.RLIMIT_CPU, (20, 20))
+
+
 PROBE_RE = re.compile(r'"([A-Za-z0-9_.]+)"\s*,\s*(\d+)\s*,\s*"([^"]*)"')
 
 
@@ -74,17 +80,17 @@ def norm(f):
 
 
 def obs_E(cmd, d):
-    p = subprocess.run(cmd + ["-E", "main.c"], cwd=d, capture_output=True, text=True, timeout=20, errors="replace")
+    p = subprocess.run(cmd + ["-E", "main.c"], cwd=d, capture_output=True, text=True, timeout=180, preexec_fn=_limits, errors="replace")
     if p.returncode:
         return None, p.stderr[-300:]
     return [(m.group(1), int(m.group(2)), norm(m.group(3))) for m in PROBE_RE.finditer(p.stdout)], ""
 
 
 def obs_run(cmd, d):
-    p = subprocess.run(cmd + ["-o", "prog", "main.c"], cwd=d, capture_output=True, text=True, timeout=60, errors="replace")
+    p = subprocess.run(cmd + ["-o", "prog", "main.c"], cwd=d, capture_output=True, text=True, timeout=180, preexec_fn=_limits, errors="replace")
     if p.returncode:
         return None, p.stderr[-300:]
-    r = subprocess.run([d + "/prog"], cwd=d, capture_output=True, text=True, timeout=10)
+    r = subprocess.run([d + "/prog"], cwd=d, capture_output=True, text=True, timeout=180, preexec_fn=_limits)
     out = []
     for l in r.stdout.splitlines():
         f = l.split(" ")
@@ -94,7 +100,7 @@ def obs_run(cmd, d):
 
 
 def obs_loc(cmd, d):
-    p = subprocess.run(cmd + ["-S", "-o", "-", "main.c"], cwd=d, capture_output=True, text=True, timeout=30, errors="replace")
+    p = subprocess.run(cmd + ["-S", "-o", "-", "main.c"], cwd=d, capture_output=True, text=True, timeout=180, preexec_fn=_limits, errors="replace")
     if p.returncode:
         return None, p.stderr[-300:]
     files, cur, out = {}, None, []
@@ -120,7 +126,7 @@ def obs_diag(cmd, d, gcc=False):
     else:
         cmd = cmd + ["-c", "-o", "/dev/null"]
     p = subprocess.run(cmd + ["main.c"], cwd=d,
-                       capture_output=True, text=True, timeout=20, errors="replace")
+                       capture_output=True, text=True, timeout=180, preexec_fn=_limits, errors="replace")
     for l in p.stderr.splitlines():
         m = re.match(r"([^:\s]+):(\d+):(?:\d+:)? (?:error: )?", l)
         if m and (not gcc or "error" in l):
